@@ -155,7 +155,8 @@ def impl_dtyped(v):
     c, off = v["case"], v["off"]
     nodes = np.asarray([x + off for x in c["nodes"]], dtype=v["nd"])
     edges = np.asarray([[a + off, b + off] for a, b in c["edges"]], dtype=v["ed"]).reshape(-1, 2)
-    labels = np.asarray(c["labels"], dtype=v["ld"])
+    loff = v.get("loff", 0)
+    labels = np.asarray([x + loff for x in c["labels"]], dtype=v["ld"])
     if v["layout"] == "fortran":
         edges = np.asfortranarray(edges)
     elif v["layout"] == "strided":
@@ -179,7 +180,39 @@ def impl_dtyped(v):
     for m in errors:
         mm = MSG.match(m)
         bad.append(int(mm.group(1)) if mm else None)
-    return {"valid": bool(valid), "bad": bad, "modified": snapshot(nodes, edges, labels) != before}
+    return {"valid": bool(valid), "bad": bad, "messages": [str(m) for m in errors],
+            "modified": snapshot(nodes, edges, labels) != before}
+
+
+def wrap64(x):
+    return (x + 2**63) % 2**64 - 2**63
+
+
+def dtyped_request(v):
+    """the same arrays, as integers, for the model's `arrays` op (`validateLineagesArrays`)"""
+    c, off, loff = v["case"], v["off"], v.get("loff", 0)
+    return {"op": "arrays", "nodes": [str(x + off) for x in c["nodes"]], "labels": [str(x + loff) for x in c["labels"]],
+            "edges": [[str(a + off), str(b + off)] for a, b in c["edges"]]}
+
+
+def dtyped_verdict(v, r):
+    """(key, message) of the violation shown by observation r of impl_dtyped(v), or None"""
+    c, loff = v["case"], v.get("loff", 0)
+    s_valid, s_bad = spec_oracle(c["nodes"], c["labels"], c["edges"])
+    want_bad = [x + loff for x in s_bad]
+    dt = f"node/edge/label dtypes {v['nd']}/{v['ed']}/{v['ld']}, ids shifted by {v['off']}, lineage ids by {loff}"
+    if "exc" in r:
+        return "C14:exception-for-integer-dtype", f"validate_lineages raised {r['exc']} for {dt}, layout {v['layout']}"
+    if r["valid"] != s_valid:
+        return "C14:verdict-depends-on-dtype", f"{dt}: got {r['valid']} {r['bad']}, the definition says {s_valid} {want_bad}"
+    if r["bad"] != want_bad:
+        if r["bad"] == [wrap64(x) for x in want_bad] and any(x >= 2**63 for x in want_bad):
+            return ("C14:uint64-id-wrapped-in-message",
+                    f"{dt}: the verdict is right but the messages name {r['bad']} instead of the offending lineage ids {want_bad}")
+        return "C14:verdict-depends-on-dtype", f"{dt}: got {r['valid']} {r['bad']}, the definition says {s_valid} {want_bad}"
+    if r["modified"]:
+        return "C14:validator-modifies-input", "validate_lineages modified its argument arrays"
+    return None
 
 
 def masked_geff(v):
@@ -220,6 +253,13 @@ def impl_masked(v):
                       ("both", {"lineage": True, "tracklet": True}),
                       ("all", {"lineage": True, "tracklet": True, "graph": False, "sphere": True, "ellipsoid": True})):
         out[name] = run_vd(masked_geff(v), cfg)
+    # the exception arguments of the lineage-only call, verbatim (the model renders them itself)
+    from geff.validate.data import ValidationConfig as _VC, validate_data as _vd
+    try:
+        _vd(masked_geff(v), _VC(lineage=True))
+        out["lin_args"] = None
+    except Exception as ex:  # noqa: BLE001
+        out["lin_args"] = [str(a) for a in ex.args]
     # the same in-memory geff object validated repeatedly (as after a validated read): every call
     # must give the verdict of a fresh object, and no array of the geff may be modified
     g = masked_geff(v)
@@ -296,6 +336,13 @@ def impl_history(h):
 def gen_dtyped(rng, c):
     vals = c["nodes"] + [x for e in c["edges"] for x in e]
     lo, hi = (min(vals), max(vals)) if vals else (0, 0)
+    if rng.random() < 0.2:
+        # uint64 arrays whose values reach beyond the int64 range (the pool has ids 0..127):
+        # around the 2^63 boundary, well above it, and at the top of the range
+        off = rng.choice([2**63 - 2, 2**63, 2**63 + 10, 2**64 - 200, 2**62])
+        loff = rng.choice([0, 0, 2**63 - 11, 2**63 + 3, 2**64 - 1000])
+        return {"case": c, "nd": "uint64", "ed": "uint64", "ld": "uint64" if loff else rng.choice(["uint64", "int64", "uint8"]),
+                "off": off, "loff": loff, "layout": rng.choice(["plain", "plain", "fortran", "strided", "readonly", "bigendian"])}
     nd, ed = rng.choice(INT_DTYPES), rng.choice(INT_DTYPES)
     if rng.random() < 0.5:
         ed = nd
@@ -327,8 +374,11 @@ def gen_masked(rng, c):
     if rng.random() < 0.25 and n:
         i = rng.randrange(n)
         trk[i] = rng.choice(trk + [999])
-    return {"case": c, "trk": trk, "lin_missing": mask(0.3) if rng.random() < 0.6 else None,
-            "trk_missing": mask(0.3) if rng.random() < 0.7 else None}
+    v = {"case": c, "trk": trk, "lin_missing": mask(0.3) if rng.random() < 0.6 else None,
+         "trk_missing": mask(0.3) if rng.random() < 0.7 else None}
+    if rng.random() < 0.03:   # a mask of the wrong length: numpy's IndexError (model: DataOutcome.indexError)
+        v["lin_missing"] = [rng.random() < 0.3 for _ in range(n + rng.choice([-1, 1, 2]))] if n else [True]
+    return v
 
 
 def gen_history(rng):
@@ -432,7 +482,7 @@ def classify(case, impl):
 
 
 def run(ck: common.Check):
-    ck.prove(["GeffProps.C14"])
+    ck.prove(["GeffProps.C14", "GeffProps.C14Inv", "GeffProps.C14Data"])
     ck.rule = ("cases = corpus + all digraphs (no self loops) on <=N nodes x all labellings up to renaming "
                "(+ one phantom endpoint) + seeded random graphs of 1..7 nodes with component labellings and "
                "single-edit corruptions; non-trivial = at least one edge or two labels; distinct = distinct "
@@ -527,28 +577,50 @@ def run(ck: common.Check):
             and all(-100 <= x <= 127 for x in c["nodes"] + c["labels"] + [y for e in c["edges"] for y in e])
             and all(x >= 0 for x in c["nodes"] + c["labels"] + [y for e in c["edges"] for y in e])]
     nd_n = 2500 if ck.quick else 30000
-    dts = [gen_dtyped(ck.rng, ck.rng.choice(pool)) for _ in range(nd_n)]
-    for v, r in zip(dts, common.pmap(impl_dtyped, dts, chunksize=256)):
+    fixed = [{"case": {"nodes": [1, 2, 5], "labels": [7, 8, 3], "edges": [[1, 2]]}, "nd": "uint64", "ed": "uint64", "ld": "uint64",
+              "off": 2**63, "loff": 2**63, "layout": "plain"},
+             {"case": {"nodes": [1, 2, 5], "labels": [7, 7, 3], "edges": [[1, 2]]}, "nd": "uint64", "ed": "uint64", "ld": "uint64",
+              "off": 2**63 - 2, "loff": 2**63 - 5, "layout": "plain"}]
+    dts = fixed + [gen_dtyped(ck.rng, ck.rng.choice(pool)) for _ in range(nd_n)]
+    dmodel = drv.ask([dtyped_request(v) for v in dts])
+    if dmodel is None:
+        ck.broken.append({"what": "driver Drivers/C14.lean (arrays op)", "detail": drv.broken})
+    for i, (v, r) in enumerate(zip(dts, common.pmap(impl_dtyped, dts, chunksize=256))):
         c = v["case"]
-        s_valid, s_bad = spec_oracle(c["nodes"], c["labels"], c["edges"])
-        ck.case({k: v[k] for k in ("nd", "ed", "ld", "off", "layout")} | {"case": c},
-                f"dtyped-{'same' if v['nd'] == v['ed'] else 'mixed'}-{v['layout']}")
-        if "exc" in r:
-            ck.fail("C14:exception-for-integer-dtype", f"validate_lineages raised {r['exc']} for node/edge/label dtypes "
-                    f"{v['nd']}/{v['ed']}/{v['ld']} layout {v['layout']}", {"dtyped": v}, r, {"valid": s_valid})
-        elif r["valid"] != s_valid or r["bad"] != s_bad:
-            ck.fail("C14:verdict-depends-on-dtype", f"node/edge/label dtypes {v['nd']}/{v['ed']}/{v['ld']}, ids shifted by {v['off']}: "
-                    f"got {r['valid']} {r['bad']}, the definition says {s_valid} {s_bad}", {"dtyped": v}, r, {"valid": s_valid, "bad": s_bad})
-        elif r["modified"]:
-            ck.fail("C14:validator-modifies-input", "validate_lineages modified its argument arrays", {"dtyped": v}, r, None)
+        big = v["off"] + 127 >= 2**63 or v.get("loff", 0) + 127 >= 2**63
+        ck.case({k: v.get(k, 0) for k in ("nd", "ed", "ld", "off", "loff", "layout")} | {"case": c},
+                f"dtyped-{'same' if v['nd'] == v['ed'] else 'mixed'}-{v['layout']}{'-beyond-int64' if big else ''}")
+        bad = dtyped_verdict(v, r)
+        if bad:
+            ck.fail(bad[0], bad[1], {"dtyped": v}, r, None)
+        if dmodel is not None:
+            mo = dmodel[i]
+            if "err" in mo:
+                ck.corr_broken("C14:driver", v, r, mo)
+            elif "exc" in r or mo["valid"] != r["valid"] or mo["messages"] != r["messages"]:
+                # the model renders the messages itself: compared verbatim
+                ck.corr_broken("C14:validateLineagesArrays", v, r, mo)
     ck.extra["dtyped_cases"] = nd_n
 
     # ---- missing masks on the lineage and/or tracklet id property, every combination of the two validators
     mpool = [c for c in cases if c["nodes"] and dag_clean(c)]
     nm_n = 1500 if ck.quick else 20000
     ms = [gen_masked(ck.rng, ck.rng.choice(mpool)) for _ in range(nm_n)]
-    for v, r in zip(ms, common.pmap(impl_masked, ms, chunksize=128)):
+    mmodel = drv.ask([{"op": "data", "nodes": [str(x) for x in v["case"]["nodes"]], "values": [str(x) for x in v["case"]["labels"]],
+                       "missing": v["lin_missing"], "edges": [[str(a), str(b)] for a, b in v["case"]["edges"]]} for v in ms])
+    if mmodel is None:
+        ck.broken.append({"what": "driver Drivers/C14.lean (data op)", "detail": drv.broken})
+    for i, (v, r) in enumerate(zip(ms, common.pmap(impl_masked, ms, chunksize=128))):
         c = v["case"]
+        if mmodel is not None:
+            mo = mmodel[i]
+            if "err" in mo:
+                ck.corr_broken("C14:driver", v, r, mo)
+            elif mo["outcome"] != r["lin"] or (mo.get("args") != r["lin_args"] and r["lin"] == "ValueError"):
+                ck.corr_broken("C14:validateDataLineage", v, {"lin": r["lin"], "lin_args": r["lin_args"]}, mo)
+        if v["lin_missing"] is not None and len(v["lin_missing"]) != len(c["nodes"]):
+            ck.case(v, "masked-wrong-length-mask")
+            continue   # numpy rejects the mask; nothing for the property to say (correspondence only)
         keep = [i for i in range(len(c["nodes"])) if not (v["lin_missing"] and v["lin_missing"][i])]
         l_valid, _ = spec_oracle([c["nodes"][i] for i in keep], [c["labels"][i] for i in keep], c["edges"])
         want_lin = "ok" if l_valid else "ValueError"
@@ -617,11 +689,10 @@ def replay(rp):
     if "dtyped" in c:
         v = c["dtyped"]
         r = impl_dtyped(v)
-        s_valid, s_bad = spec_oracle(v["case"]["nodes"], v["case"]["labels"], v["case"]["edges"])
-        ok = "exc" not in r and r["valid"] == s_valid and r["bad"] == s_bad and not r["modified"]
-        print(json.dumps({"case": v, "impl": r, "spec": {"valid": s_valid, "bad": s_bad}}))
-        print("REPLAY: property holds on this input" if ok else "REPLAY: property FAILS on this input")
-        return 0 if ok else 1
+        bad = dtyped_verdict(v, r)
+        print(json.dumps({"case": v, "impl": r, "violation": bad}))
+        print("REPLAY: property holds on this input" if bad is None else "REPLAY: property FAILS on this input")
+        return 0 if bad is None else 1
     if "masked" in c:
         v = c["masked"]
         r = impl_masked(v)
